@@ -803,7 +803,11 @@ class Surface:
             rsq = r * r
             z = conic_sag(params['c'], params['k'], rsq)
             dr = conic_sag_der(params['c'], params['k'], r)
-            dx, dy = surface_normal_from_cylindrical_derivatives(dr, 0, r, t)
+            # rotationally symmetric: no azimuthal derivative, so the Cartesian
+            # slopes are the projections of dr; this has no 1/r term and is
+            # finite (zero) on the axis, where the general conversion is 0/0
+            dx = dr * np.cos(t)
+            dy = dr * np.sin(t)
             return z, dx, dy
 
         return cls(typ=typ, P=P, n=n, FFp=FFp, R=R, params=params, bounding=bounding)
